@@ -120,6 +120,28 @@ def run(ctx, res):
                         "configured spelling" % detail, loc=T.loc(n)))
     if not [f for f in res.findings if f.rule == "C18.R6"]:
         res.holds("C18.R6", "-", "name-discipline", "no case-folding / prefix / trimming operation on names")
+    # R7: the tokenizer treats every delimiter spelling alike: a character that aborts a partial match is re-examined
+    from . import c08
+    from .. import report as _rep
+    sub = _rep.Result("C08", "other")
+    c08.run(ctx, sub)
+    for f in sub.findings:
+        res.add(Finding("C18.R7", f.fn, f.site, "delimiter handling depends on the spelling: " + f.message, loc=f.loc))
+    if not sub.findings:
+        res.holds("C18.R7", "tokenizer::get_state", "uniform-delimiter-handling", "C08 rules hold")
+    # R8: no character-class predicate decides what a tag / attribute name may look like
+    CLASS_PREDICATES = {"is_ascii", "is_ascii_alphabetic", "is_ascii_alphanumeric", "is_ascii_digit", "is_ascii_lowercase", "is_ascii_uppercase", "is_ascii_punctuation",
+                        "is_alphabetic", "is_alphanumeric", "is_numeric", "is_lowercase", "is_uppercase", "is_ascii_graphic", "is_control", "is_ascii_hexdigit"}
+    n_cls = 0
+    for name in ("tokenizer::tokenize", "tokenizer::get_state", "tokenizer::check_delimiter_start", "element_parser::parse", "parser::tree"):
+        b_ = P.fn(name)
+        for n in T.nodes(b_["tree"], "mcall"):
+            if n["name"] in CLASS_PREDICATES:
+                n_cls += 1
+                res.add(Finding("C18.R8", fshort(b_), "char-class:" + T.render(n)[-50:], "`%s` restricts which characters a delimiter / tag / attribute spelling may use"
+                                % T.render(n)[-70:], loc=T.loc(n)))
+    if n_cls == 0:
+        res.holds("C18.R8", "-", "no-character-class-predicates")
     c09.strip_once(ctx, res)
     for f in res.findings:
         if f.rule == "C09.R3":
